@@ -19,9 +19,9 @@ Common miscellanous tools and constants for general use
 
 from collections import deque
 try:
-  from collections.abc import Iterable
+  from collections.abc import Iterable, Iterator
 except ImportError:
-  from collections import Iterable
+  from collections import Iterable, Iterator
 from functools import wraps
 import itertools as it
 import sys
@@ -198,8 +198,11 @@ def elementwise(name="", pos=None):
                        **dict(it.chain(iteritems(kwargs), [(name, x)])))
                   for x in arg)
 
-        # Generators should still return generators
-        if isinstance(arg, SOME_GEN_TYPES):
+        # Generators should still return generators, and so should any other
+        # one-shot iterator (e.g. iter(a_list), itertools objects)
+        from .lazy_stream import Stream
+        if isinstance(arg, SOME_GEN_TYPES) or (isinstance(arg, Iterator) and
+                                               not isinstance(arg, Stream)):
           return data
 
         # Cast to numpy array or matrix, if needed, without actually
@@ -216,7 +219,6 @@ def elementwise(name="", pos=None):
           return np_type(list(data))
 
         # If it's a Stream, let's use the Stream constructor
-        from .lazy_stream import Stream
         if issubclass(type_arg, Stream):
           return Stream(data)
 
